@@ -176,6 +176,11 @@ def check_line(ctx, case):
 def line_case(draw, descriptions=False):
     cfgk = draw(st.sampled_from(["bare", "bare", "default"]))
     tree = draw(gen_tree.tree_st())
+    return draw(line_for(tree, cfgk))
+
+
+@st.composite
+def line_for(draw, tree, cfgk):
     # walk
     children = gen_tree.top_commands(tree, cfgk)
     path = []
